@@ -2,11 +2,12 @@ import PyamgV.Driver.Util
 import PyamgV.Model.ExtC19TCx
 /-! Driver ops of extension task E52 (property C19).  Numbers are binary64 bit patterns written as decimal integers; a
 complex vector is the list `re_0,im_0,re_1,im_1,...`; matrices / lists of vectors: rows separated by `;`; the oracle of
-`ext_c19t_asr` lists the cycles separated by `|`, each cycle `ev;evect[:,0];evect[:,1];...`.
+`ext_c19t_asr` lists the cycles separated by `|`, each cycle `ev;evect[:,0];evect[:,1];...`, optionally prefixed by
+`<max_index of the run>@` when the largest moduli tie.
 
 `ext_c19t_arnoldi <A> <breakdown tol> <symmetric 0|1> <maxiter> <v0>`
   -> `<breakdown_flag> <V_0;V_1;...> <col_0;col_1;...>`   `_approximate_eigenvalues` with conjugated inner products
-`ext_c19t_asr <A> <breakdown tol> <tol> <vtolSq> <maxiter> <restart> <A real 0|1> <initial_guess> <oracle>`
+`ext_c19t_asr <A> <breakdown tol> <tol> <vtolSq> <tieTol> <maxiter> <restart> <A real 0|1> <initial_guess> <oracle>`
   -> `ok <rho> <cycle>*` with `<cycle> = flag/max_index/theta/error/converged/new v0/H columns`, or `err <message>`
 `ext_c19t_condest <A> <breakdown tol> <vtolSq> <symmetric 0|1> <maxiter> <v0> <ev> <evect>`
   -> `ok <estimate> <max |ev|> <min |ev|> <flag> <H columns>` or `err <message>`
@@ -33,12 +34,15 @@ def showCm (xs : List (List (Cx Float))) : String :=
 def cplx1 (t : String) : Cx Float := (cvec t).getD 0 ⟨0, 0⟩
 def msg (e : String) : String := "err " ++ e.replace " " "_"
 
-def oracle (t : String) : List (List (Cx Float) × List (List (Cx Float))) :=
+def oracle (t : String) : List (List (Cx Float) × List (List (Cx Float)) × Option Nat) :=
   if t = "-" then [] else
   (t.splitOn "|").map fun c =>
-    match cmat c with
-    | ev :: ys => (ev, ys)
-    | [] => ([], [])
+    let (hint, body) := match c.splitOn "@" with
+      | [h, b] => (h.toNat?, b)
+      | _ => (none, c)
+    match cmat body with
+    | ev :: ys => (ev, ys, hint)
+    | [] => ([], [], hint)
 
 def showCyc (c : CycL (Cx Float)) : String :=
   String.intercalate "/" [if c.brk then "1" else "0", toString c.idx, showC c.theta, showC c.err,
@@ -53,8 +57,8 @@ def handle : List String → Option String
     match approxEigCFloat A (cplx1 tol) (sym = "1") (nat maxiter) v with
     | none => some "none"
     | some (vs, cols, brk) => some s!"{if brk then 1 else 0} {showCm vs} {showCm cols}"
-  | ["ext_c19t_asr", a, btol, tol, vtol, maxiter, restart, realA, guess, orc] =>
-    match asrCFloat (realA = "1") (cmat a) (cplx1 btol) (cplx1 tol) (cplx1 vtol) (int maxiter) (int restart) (cvec guess)
+  | ["ext_c19t_asr", a, btol, tol, vtol, ttol, maxiter, restart, realA, guess, orc] =>
+    match asrCFloat (realA = "1") (cmat a) (cplx1 btol) (cplx1 tol) (cplx1 vtol) (cplx1 ttol) (int maxiter) (int restart) (cvec guess)
         (oracle orc) with
     | .error e => some (msg e)
     | .ok cs =>
